@@ -173,6 +173,37 @@ def check(case: dict):
     finally:
         md.set_serialize_minimal_threshold(100)
     _compare(sig, loaded, ds, pre_lengths)
+    again = case.get("again")
+    if again:
+        # second generation: the loaded dataset (arrays possibly views of one packed array, narrower dtypes) is rearranged / re-serialized
+        mz = list(loaded.mazes)
+        op = again["op"]
+        if op == "reverse":
+            mz = mz[::-1]
+        elif op == "rotate" and mz:
+            k = again.get("k", 1) % len(mz)
+            mz = mz[k:] + mz[:k]
+        elif op == "swap" and len(mz) >= 2:
+            i, j = again.get("k", 0) % len(mz), (again.get("k", 0) + 1 + again.get("j", 0)) % len(mz)
+            mz[i], mz[j] = mz[j], mz[i]
+        elif op == "subset":
+            mz = mz[again.get("k", 0) % 2 :: 2]
+        elif op == "mix":
+            # half of the mazes come from the loaded dataset, half are the originals (same content, different array provenance)
+            mz = [b if (i + again.get("k", 0)) % 2 else a for i, (a, b) in enumerate(zip(ds.mazes, loaded.mazes))]
+        if op == "same-object":
+            ds2 = loaded
+        else:
+            ds2 = MazeDataset(cfg=loaded.cfg, mazes=mz, generation_metadata_collected=loaded.generation_metadata_collected)
+        fmt2 = again["fmt"]
+        if len(ds2) == 0 and fmt2 != "full":
+            fmt2 = "full"
+        sig2 = f"C05:again:{fmt2}"
+        pre2 = [len(m.solution) for m in ds2.mazes]
+        ser2 = {"full": ds2._serialize_full, "minimal": ds2._serialize_minimal, "soln_cat": ds2._serialize_minimal_soln_cat}[fmt2]
+        data2 = call(f"{sig2}:serialize", ser2)
+        loaded2 = call(f"{sig2}:load", MazeDataset.load, data2)
+        _compare(sig2, loaded2, ds2, pre2)
     lens = sorted(set(pre_lengths))
     nt = (len(lens) >= 2) or (lens and lens[0] <= 2) or fmt != "full"
     labels = [f"fmt:{fmt}", f"ch:{channel}", f"meta:{case.get('meta')}", f"src:{case['src']}", "fmt-out:" + expect_fmt.split(":")[-1]]
@@ -184,6 +215,8 @@ def check(case: dict):
         labels.append("empty")
     if case.get("n_mazes_off"):
         labels.append("stale-n_mazes")
+    if again:
+        labels += [f"again:{again['op']}", "again:packed->packed" if (expect_fmt != "MazeDataset" and again["fmt"] != "full") else "again:other-formats"]
     return {"nt": bool(nt), "labels": labels}
 
 
@@ -202,8 +235,9 @@ def check_collection(case: dict):
         members = col.maze_datasets
     else:
         members = [build_dataset(m) for m in case["members"]]
+        names = case.get("names") or list(range(len(members)))  # members may share a config name
         for j, ds in enumerate(members):
-            ds.cfg.name = f"m{j}"
+            ds.cfg.name = f"m{names[j]}"
         ccfg = MazeDatasetCollectionConfig(name="col", maze_dataset_configs=[ds.cfg for ds in members])
         col = MazeDatasetCollection(ccfg, members)
     thr = case.get("threshold", 100)
@@ -233,7 +267,7 @@ def check_collection(case: dict):
     for j, (a, b) in enumerate(zip(members, loaded.maze_datasets)):
         _compare(f"{sig}:member", b, a, pre[j])
     minimal = thr is not None and any(ln >= thr for ln in lens)
-    return {"nt": len(members) >= 2, "labels": [f"ch:{channel}", "route:" + case.get("route", "hand"), "some-member-minimal" if minimal else "all-full", "has-empty-member" if 0 in lens else "no-empty"]}
+    return {"nt": len(members) >= 2, "labels": [f"ch:{channel}", "route:" + case.get("route", "hand"), "some-member-minimal" if minimal else "all-full", "has-empty-member" if 0 in lens else "no-empty"] + (["shared-member-name"] if case.get("route") != "generate" and case.get("names") and len(set(case["names"])) < len(case["names"]) else [])}
 
 
 # ------------------------------------------------------------------------------------------ strategies
@@ -278,6 +312,9 @@ def _case(draw, n_hi, mazes_hi):
     if case["fmt"] == "auto":
         case["threshold"] = draw(st.sampled_from([None, 1, "len", "len+1", 100, 3]))
     case["channel"] = draw(st.sampled_from(["memory", "memory", "file"]))
+    if draw(st.booleans()):
+        case["again"] = {"op": draw(st.sampled_from(["reverse", "rotate", "swap", "subset", "mix", "same-object"])), "k": draw(st.integers(0, 5)), "j": draw(st.integers(0, 3)),
+                         "fmt": draw(st.sampled_from(["full", "minimal", "soln_cat"]))}
     return case
 
 
@@ -297,6 +334,8 @@ def _collection(draw):
         members.append(m)
     thr = draw(st.sampled_from([None, 100, 100, 3, 2]))
     case = {"members": members, "threshold": thr, "channel": draw(st.sampled_from(["memory", "file"]))}
+    if draw(st.booleans()):
+        case["names"] = [draw(st.integers(0, max(0, k // 2))) for _ in range(k)]
     if all(m["src"] == "gen" for m in members) or draw(st.booleans()):
         case["route"] = "generate"
         case["members"] = [m if m["src"] == "gen" else draw(_gen_dataset(4, 6)) for m in members]
